@@ -273,6 +273,7 @@ def run(prog: Program, rep, tier="quick"):
     r02_5(prog, rep, m, F, fn)
     r02_6(prog, rep, m, F)
     r02_7(prog, rep, m, F, fn)
+    r02_8(prog, rep, m, F, fn)
     rep.floor("R02.1", 18)
     rep.floor("R02.2", 5)
     rep.floor("R02.3", 8)
@@ -620,3 +621,62 @@ def r02_7(prog, rep, m, F, fn):
                    "index disagrees with the pack (git verify-pack rejects the index)", c.lineno)
     if n < 6:
         raise AnalysisError(f"expected >= 6 running crc32 updates in pack.py, found {n}")
+
+
+def r02_8(prog, rep, m, F, fn):
+    """Three structural necessary conditions around deltas and the trailer:
+    (1) extend_pack: every object appended to a thin pack is written THROUGH the running digest that becomes the new trailer;
+    (2) find_reusable_deltas: a stored delta is reused only behind membership tests of its base (in the pack or on the peer);
+    (3) Pack.resolve_object: every hop of the chain walk re-binds the current offset (an OFS hop is relative to it, and results
+        are cached under the offsets collected on the way)."""
+    rep.rule("R02.8", "appended bases enter the trailer digest; deltas are reused only behind a membership test of their base; every chain hop re-binds the offset")
+    ep = fn("extend_pack")
+    dig = [s_.value.func.value.id for s_ in ast.walk(ep.node) if isinstance(s_, ast.Assign) and isinstance(s_.value, ast.Call) and isinstance(s_.value.func, ast.Attribute)
+           and s_.value.func.attr == "digest" and isinstance(s_.value.func.value, ast.Name)]
+    wcalls = [c for c in ast.walk(ep.node) if isinstance(c, ast.Call) and callee_name(c) == "write_pack_object"]
+    wdef = m.funcs.get("write_pack_object")
+    sha_pos = [a.arg for a in wdef.node.args.args].index("sha") if wdef and "sha" in [a.arg for a in wdef.node.args.args] else None
+    def passes_digest(c):
+        kw = {k.arg: k.value for k in c.keywords}
+        v = kw.get("sha")
+        if v is None and sha_pos is not None and len(c.args) > sha_pos:
+            v = c.args[sha_pos]
+        return isinstance(v, ast.Name) and v.id in dig
+    rep.ob("R02.8", PACK, ep.qual, "every appended object is written through the digest that becomes the trailer", bool(dig) and bool(wcalls) and all(passes_digest(c) for c in wcalls),
+           f"digest variable(s) {dig}; a write_pack_object call does not receive it: the trailer (and the index) carry a checksum that does "
+           f"not cover the appended bases - git verify-pack / index-pack reject the pack", wcalls[0].lineno if wcalls else ep.node.lineno)
+    trailer = any(isinstance(c, ast.Call) and isinstance(c.func, ast.Attribute) and c.func.attr == "write" and c.args and isinstance(c.args[0], ast.Name)
+                  and any(isinstance(s_, ast.Assign) and isinstance(s_.targets[0], ast.Name) and s_.targets[0].id == c.args[0].id and isinstance(s_.value, ast.Call)
+                          and isinstance(s_.value.func, ast.Attribute) and s_.value.func.attr == "digest" for s_ in ast.walk(ep.node)) for c in ast.walk(ep.node))
+    rep.ob("R02.8", PACK, ep.qual, "the digest is written as the trailer", trailer, "", ep.node.lineno)
+    fr = fn("find_reusable_deltas")
+    g = cfg_of(prog, fr)
+    ys = [i for i, n in g.nodes.items() for e in node_exprs(n) for y in ast.walk(e) if isinstance(y, ast.Yield)]
+    base_vars = {s_.targets[0].id for s_ in ast.walk(fr.node) if isinstance(s_, ast.Assign) and isinstance(s_.targets[0], ast.Name) and "delta_base" in norm(s_.value)}
+    memb = {i for i, n in g.nodes.items() if n.kind == "test" and isinstance(n.ast, ast.Compare) and len(n.ast.ops) == 1 and isinstance(n.ast.ops[0], ast.In)
+            and (("delta_base" in norm(n.ast.left)) or (isinstance(n.ast.left, ast.Name) and n.ast.left.id in base_vars))}
+    r_ = reach(g, [g.entry], include_srcs=True, edge_ok=lambda a, b, l: not (a in memb and l == "true"))
+    rep.ob("R02.8", PACK, fr.qual, "a delta is handed out for reuse only on the true side of a membership test of its base", bool(ys) and len(memb) >= 2 and not any(y in r_ for y in ys),
+           "a stored delta can be reused without its base having been found in the pack or among the peer's objects (a bare truthiness test of the "
+           "set?): the pack carries a ref-delta nobody can resolve", g.nodes[ys[0]].line if ys else fr.node.lineno)
+    ro = fn("Pack.resolve_object")
+    g = cfg_of(prog, ro)
+    loops = [w for w in ast.walk(ro.node) if isinstance(w, ast.While) and "DELTA_TYPES" in norm(w.test)]
+    if not loops:
+        raise AnalysisError("Pack.resolve_object: delta chain loop not found")
+    w = loops[0]
+    inner = {id(x) for x in ast.walk(w)}
+    # the variable the OFS arm subtracts from
+    subs = [x for x in ast.walk(w) if (isinstance(x, ast.AugAssign) and isinstance(x.op, ast.Sub)) or
+            (isinstance(x, ast.Assign) and isinstance(x.value, ast.BinOp) and isinstance(x.value.op, ast.Sub))]
+    cur = next((norm(x.target) if isinstance(x, ast.AugAssign) else norm(x.targets[0]) for x in subs if "delta" in norm(x)), None)
+    if cur is None:
+        raise AnalysisError("Pack.resolve_object: the offset the OFS_DELTA arm subtracts from was not found")
+    rebind = {i for i, n in g.nodes.items() if n.kind == "stmt" and id(n.ast) in inner and isinstance(n.ast, (ast.Assign, ast.AugAssign))
+              and any(isinstance(t_, ast.Name) and t_.id == cur and isinstance(t_.ctx, ast.Store) for t_ in ast.walk(n.ast.targets[0] if isinstance(n.ast, ast.Assign) else n.ast.target))}
+    tests = [i for i, n in g.nodes.items() if n.kind == "test" and n.ast is not None and (n.ast is w.test or any(x is n.ast for x in ast.walk(w.test)))]
+    first = g.nodes_of(w.body[0])
+    bad = must_pass(g, tests, rebind, start=first)
+    rep.ob("R02.8", PACK, ro.qual, f"every hop of the chain walk re-binds `{cur}` before the next hop", bool(tests) and bool(rebind) and not bad,
+           f"a hop (the REF_DELTA arm?) leaves `{cur}` at the delta's own offset: the next OFS_DELTA hop is computed from the wrong position and "
+           f"intermediate results are cached under the wrong offset", w.lineno)
